@@ -13,6 +13,7 @@ import (
 	"net/url"
 
 	"golang.org/x/telemetry/godev/internal/content"
+	"golang.org/x/telemetry/godev/internal/middleware"
 	"golang.org/x/telemetry/godev/internal/storage"
 	tconfig "golang.org/x/telemetry/internal/config"
 	"golang.org/x/telemetry/internal/telemetry"
@@ -258,5 +259,30 @@ func VC12_upload() {
 		for k, v := range b.Stacks {
 			vrt.Assert(a.Stacks[k] == v, "stored stacks are the ones sent")
 		}
+	}
+}
+
+// VC12_size: the request-size middleware hands the handler a body that cannot be read
+// beyond the limit, whatever length the request declares (including none, as with chunked
+// transfer encoding).
+func VC12_size() {
+	limit := int64(3)
+	n := vrt.Choose(7)
+	body := vrt.Bytes(n)
+	var got int
+	var rerr error
+	inner := http.HandlerFunc(func(w http.ResponseWriter, r *http.Request) {
+		b, err := io.ReadAll(r.Body)
+		got, rerr = len(b), err
+	})
+	h := middleware.RequestSize(limit)(inner)
+	req := &http.Request{Method: "POST", URL: &url.URL{Path: "/upload/x"}, Body: io.NopCloser(bytes.NewReader(body))}
+	req.ContentLength = []int64{-1, 0, int64(n), 1}[vrt.Choose(4)]
+	h.ServeHTTP(&c12rw{}, req)
+	if int64(n) <= limit {
+		vrt.Assert(rerr == nil && got == n, "a body within the limit is read in full")
+	} else {
+		vrt.Assert(rerr != nil, "a body over the size limit is refused")
+		vrt.Assert(int64(got) <= limit, "no more than the limit is ever read")
 	}
 }
